@@ -62,7 +62,8 @@ Recover(s, f) == ReplayFrom(IF s = <<>> THEN Zero ELSE s[1], f)
 
 \* ---- writer primitives (all inside the run goroutine) --------------------
 \* drainPending: move everything queued in writeCh into the buffer it belongs to
-Drained == IF mode THEN [b |-> buf, s |-> shadow \o q] ELSE [b |-> buf \o q, s |-> shadow]
+DrainedOf(qq) == IF mode THEN [b |-> buf, s |-> shadow \o qq] ELSE [b |-> buf \o qq, s |-> shadow]
+Drained == DrainedOf(q)
 
 Init ==
   /\ cpc = [c \in Clients |-> "idle"] /\ cver = Zero /\ memv = Zero /\ acked = Zero
@@ -113,21 +114,21 @@ W_Tick ==
   /\ UNCHANGED <<cpc, cver, memv, acked, q, shadow, mode, wclosed, wdead, ackpre, snap, apc, img, pend, nadmin, nflush, dev>>
 
 \* cmdFlush / cmdSync served (explicit Flush by a caller, KVDelete, engine tickers)
-W_Flush ==
+W_FlushQ(qq, rest) ==
   /\ ~wclosed /\ nflush < MaxFlush
   /\ nflush' = nflush + 1
-  /\ q' = <<>> /\ shadow' = Drained.s
-  /\ file' = file \o Drained.b /\ buf' = <<>>
+  /\ q' = rest /\ shadow' = DrainedOf(qq).s
+  /\ file' = file \o DrainedOf(qq).b /\ buf' = <<>>
   /\ UNCHANGED <<cpc, cver, memv, acked, mode, wclosed, wdead, ackpre, snap, apc, img, pend, nadmin, dev>>
 
 \* ---- admin: SaveSnapshot -------------------------------------------------
 InFlight == \E c \in Clients : cpc[c] = "sent"
 
-A_Begin(kind) ==          \* BeginSnapshotMode (cmdBeginSnapshot): drain, flush, enter snapshot mode
+A_BeginQ(kind, qq, rest) ==          \* BeginSnapshotMode (cmdBeginSnapshot): drain, flush, enter snapshot mode
   /\ apc = "idle" /\ ~wclosed /\ ~mode /\ nadmin < MaxAdmin
   /\ (Barrier => ~InFlight)
   /\ nadmin' = nadmin + 1
-  /\ q' = <<>> /\ file' = file \o Drained.b /\ buf' = <<>> /\ shadow' = <<>> /\ mode' = TRUE
+  /\ q' = rest /\ file' = file \o DrainedOf(qq).b /\ buf' = <<>> /\ shadow' = <<>> /\ mode' = TRUE
   /\ apc' = kind \o ".begun"
   /\ dev' = IF InFlight THEN dev \cup {"gap"} ELSE dev
   /\ UNCHANGED <<cpc, cver, memv, acked, wclosed, wdead, ackpre, snap, img, pend, nflush>>
@@ -144,31 +145,31 @@ S_Rename ==               \* os.Rename(tmp, kdb)
   /\ apc' = "snap.renamed"
   /\ UNCHANGED <<cpc, cver, memv, acked, q, buf, shadow, mode, wclosed, wdead, ackpre, file, img, pend, nadmin, nflush, dev>>
 
-S_Truncate ==             \* cmdTruncate: drain (into the shadow buffer), flush, truncate the log
+S_TruncateQ(qq, rest) ==             \* cmdTruncate: drain (into the shadow buffer), flush, truncate the log
   /\ apc = "snap.renamed"
   /\ IF wclosed
      THEN apc' = "idle" /\ UNCHANGED <<q, shadow, buf, file>>      \* command refused: procedure aborts
-     ELSE /\ q' = <<>> /\ shadow' = Drained.s /\ buf' = <<>> /\ file' = <<>>
+     ELSE /\ q' = rest /\ shadow' = DrainedOf(qq).s /\ buf' = <<>> /\ file' = <<>>
           /\ apc' = "snap.truncated"
   /\ UNCHANGED <<cpc, cver, memv, acked, mode, wclosed, wdead, ackpre, snap, img, pend, nadmin, nflush, dev>>
 
-R_Replace ==              \* cmdReplaceWith: drain, flush, swap in the compacted log (self-contained: RESET first)
+R_ReplaceQ(qq, rest) ==              \* cmdReplaceWith: drain, flush, swap in the compacted log (self-contained: RESET first)
   /\ apc = "rw.captured"
   /\ IF wclosed
      THEN apc' = "idle" /\ UNCHANGED <<q, shadow, buf, file>>
-     ELSE /\ q' = <<>> /\ shadow' = Drained.s /\ buf' = <<>>
+     ELSE /\ q' = rest /\ shadow' = DrainedOf(qq).s /\ buf' = <<>>
           /\ file' = <<Reset>> \o [i \in 1..Len(SetToSeq({c \in Clients : img[c] > 0})) |->
                                      LET c == SetToSeq({cc \in Clients : img[cc] > 0})[i] IN [c |-> c, v |-> img[c]]]
           /\ apc' = "rw.truncated"
   /\ UNCHANGED <<cpc, cver, memv, acked, mode, wclosed, wdead, ackpre, snap, img, pend, nadmin, nflush, dev>>
 
-A_End(kind) ==            \* EndSnapshotModeAndReappend (cmdEndSnapshotReappend): drain, move the shadow writes back
+A_EndQ(kind, qq, rest) ==            \* EndSnapshotModeAndReappend (cmdEndSnapshotReappend): drain, move the shadow writes back
                           \* into the write buffer in order, leave snapshot mode, flush -- one step of the writer goroutine
   /\ apc = kind \o ".truncated"
   /\ IF wclosed
      THEN UNCHANGED <<q, shadow, mode, buf, file>>
-     ELSE /\ q' = <<>> /\ shadow' = <<>> /\ mode' = FALSE
-          /\ file' = file \o Drained.b \o Drained.s /\ buf' = <<>>
+     ELSE /\ q' = rest /\ shadow' = <<>> /\ mode' = FALSE
+          /\ file' = file \o DrainedOf(qq).b \o DrainedOf(qq).s /\ buf' = <<>>
   /\ apc' = "idle"
   /\ UNCHANGED <<cpc, cver, memv, acked, wclosed, wdead, ackpre, snap, img, pend, nadmin, nflush, dev>>
 
@@ -184,13 +185,13 @@ A_Reappend(kind) ==
 
 \* ---- shutdown --------------------------------------------------------------
 \* LazyAOFWriter.Close (cmdClose): drain, merge the shadow buffer, flush, sync, close
-W_Close ==
+W_CloseQ(qq, rest) ==
   /\ ~wclosed
   /\ (CloseWaits => apc = "idle")
   /\ wclosed' = TRUE
   /\ ackpre' = acked
-  /\ file' = file \o Drained.b \o Drained.s
-  /\ q' = <<>> /\ buf' = <<>> /\ shadow' = <<>> /\ mode' = FALSE
+  /\ file' = file \o DrainedOf(qq).b \o DrainedOf(qq).s
+  /\ q' = rest /\ buf' = <<>> /\ shadow' = <<>> /\ mode' = FALSE
   /\ UNCHANGED <<cpc, cver, memv, acked, wdead, snap, apc, img, pend, nadmin, nflush, dev>>
 
 \* the run goroutine returns: closedCh is closed
@@ -198,6 +199,14 @@ W_Dead ==
   /\ wclosed /\ ~wdead
   /\ wdead' = TRUE
   /\ UNCHANGED <<cpc, cver, memv, acked, q, buf, shadow, mode, wclosed, ackpre, file, snap, apc, img, pend, nadmin, nflush, dev>>
+
+\* the commands as the model takes them: the whole queue is drained
+W_Flush == W_FlushQ(q, <<>>)
+A_Begin(kind) == A_BeginQ(kind, q, <<>>)
+S_Truncate == S_TruncateQ(q, <<>>)
+R_Replace == R_ReplaceQ(q, <<>>)
+A_End(kind) == A_EndQ(kind, q, <<>>)
+W_Close == W_CloseQ(q, <<>>)
 
 Next ==
   \/ \E c \in Clients : C_Start(c) \/ C_Enqueue(c) \/ C_Apply(c)
